@@ -36,7 +36,7 @@ var c20Ordinary = []string{"x", "X", "_y1", "IFS", "HOME"}
 var c20Special = []string{"@", "*", "#", "?", "-", "!", "0"}
 var c20Positional = []string{"1", "2", "9", "10", "11", "00", "01", "000", "9223372036854775808", "99999999999999999999"}
 var c20Values = []string{"", "0", "1", "7", "42", "-3", "abc", "a b", "08", " ", "é"}
-var c20Words = []string{"w", "", "a b", "5", "$X", "'q'"}
+var c20Words = []string{"w", "", "a b", "5", "$X", "'q'", "a$N"}
 
 // c20Alphabet: the reduced operation alphabet whose histories of length 1..3 are enumerated exhaustively.
 var c20Alphabet = []Op{
@@ -98,6 +98,10 @@ func (c20) build(src *gen.Source) *Case {
 	}
 	n := 1 + src.Intn(12)
 	anyName := func() string {
+		switch src.Intn(24) {
+		case 23:
+			return "" // the empty name is an ordinary (if odd) variable name for Set/Unset/Get
+		}
 		switch src.Intn(6) {
 		case 0:
 			return src.Pick(c20Special)
@@ -139,7 +143,11 @@ func (c20) build(src *gen.Source) *Case {
 				// expansions that consult HOME / IFS or nest an arithmetic assignment in the operator word
 				tmpl = src.Pick([]string{"~", "~/x", "a:~:b", "$N", "x$N", "${N:=$((_y1=7))}", "${N:-$((X=3))}", "${N:+$((X=4))}", "${N%$((_y1=_y1+1))}", "${N##$((_y1=_y1+1))}"})
 			}
-			op = Op{Op: "expand", Name: anyName(), Value: strings.ReplaceAll(tmpl, "W", src.Pick(c20Words)), Mode: []uint{0, uint(interp.Quote), 0, uint(interp.Literal), uint(interp.Pattern), uint(interp.Assign), uint(interp.Arith), 0}[src.Intn(8)]}
+			nm := anyName()
+			if nm == "" {
+				nm = "x" // "${?}", "${#}" ... with an empty name are other expansions altogether
+			}
+			op = Op{Op: "expand", Name: nm, Value: strings.ReplaceAll(tmpl, "W", src.Pick(c20Words)), Mode: []uint{0, uint(interp.Quote), 0, uint(interp.Literal), uint(interp.Pattern), uint(interp.Assign), uint(interp.Arith), 0}[src.Intn(8)]}
 		case 9, 10:
 			tmpl := src.Pick([]string{"$((N=K))", "$((N+=K))", "$((N++))", "$((--N))", "$((N-=K))", "$((N*=K))", "$((1/0))", "$((08))", "$((N+1/0))", "$((N N))", "$((N))", "$((N+K))", "$((N+=M))", "$((N*=M))", "$((N=M))", "$((N-=M))"})
 			tmpl = strings.ReplaceAll(tmpl, "M", src.Pick([]string{"_y1", "X", "HOME"}))
@@ -344,6 +352,10 @@ func (m *c20Model) arithPlan(expr, name string) (plan string, value string) {
 
 // expandWord: the value the operator word of ${N:=W} expands to, for the word pool.
 func (m *c20Model) wordValue(w string) string {
+	if strings.HasPrefix(w, "a$") {
+		v, _ := m.get(w[2:])
+		return "a" + v
+	}
 	switch w {
 	case "$X":
 		v, _ := m.get("X")
